@@ -25,7 +25,9 @@ def register(reg: Registry) -> None:
             "fresh(new_params)", "len(new_params) == it_i",
             "all_int(lambda j: implies(0 <= j and j < it_i, new_params[j] is ite(isinstance(original_params[j], SsbOpParamConstant) and typed(original_params[j], 'SsbOpParamConstant').name in macro_params, macro_params[typed(original_params[j], 'SsbOpParamConstant').name], original_params[j])))"])},
         canaries=["all_int(lambda j: implies(0 <= j and j < len(original_params), result[j] is original_params[j]))"],
-        properties=["C05"])
+        # C03: `fresh(result)` is why every expansion owns its parameter list - OpsLabelJumpToRemover appends the jump target to it
+        # in place, so a shared list would carry the targets of all expansions and the op's own target would not be the last one
+        properties=["C05", "C03"])
     # C05: "the body's labels private to each expansion": every copied label gets a fresh id from the label counter
     reg.contract(
         M + ":ExplorerScriptMacro._copy_blueprint_label",
